@@ -29,6 +29,7 @@ func run() int {
 	replay := flag.String("replay", "", "re-run the property named in a violations file and print the diagnosis")
 	noEvidence := flag.Bool("no-evidence", false, "do not write evidence files (used when analysing scratch copies)")
 	verbose := flag.Bool("v", false, "print every obligation")
+	dumpAnchors := flag.Bool("dump-anchors", false, "record the functions of the analysed packages (name and signature) as JSON: the reference for recognising renamed functions")
 	flag.Parse()
 
 	if *tier == "" {
@@ -43,6 +44,16 @@ func run() int {
 	}
 	seed, _ := strconv.Atoi(os.Getenv("VERIF_SEED"))
 
+	if *dumpAnchors {
+		t, err := check.DumpAnchors(check.NewCtx(*repo, "", *tier))
+		if err != nil {
+			fmt.Fprintln(os.Stderr, err)
+			return 2
+		}
+		b, _ := json.MarshalIndent(t, "", " ")
+		fmt.Println(string(b))
+		return 0
+	}
 	if *listJSON {
 		out := []map[string]any{}
 		for _, id := range check.PropertyIDs() {
